@@ -34,6 +34,8 @@ type specState struct {
 	defs   []*smt.Term // definitional constraints introduced in the current arm
 	guard  *smt.Term
 	budget int
+	fr     *frame
+	blocks map[*ssa.BasicBlock]bool // blocks of fr executed in this arm (incl. nested arms)
 }
 
 // ---- post-dominators ----
@@ -351,6 +353,7 @@ type armOut struct {
 	old      map[*value]value
 	defs     []*smt.Term
 	phis     map[*ssa.Phi]value // phi values already joined by a nested merge that ended at the same join
+	blocks   map[*ssa.BasicBlock]bool
 }
 
 const specMaxDepth = 48
@@ -366,7 +369,7 @@ func (x *exec) runArm(fr *frame, from, start, join *ssa.BasicBlock, guard *smt.T
 	saveMP := fr.mergedPhis
 	saveTop := fr.i.top
 	saveDepth := x.depth
-	st := &specState{guard: guard}
+	st := &specState{guard: guard, fr: fr, blocks: map[*ssa.BasicBlock]bool{}}
 	x.specStack = append(x.specStack, st)
 	x.spec++
 	env := make(map[ssa.Value]value, len(env0)+16)
@@ -398,6 +401,15 @@ func (x *exec) runArm(fr *frame, from, start, join *ssa.BasicBlock, guard *smt.T
 		}
 		x.spec--
 		x.specStack = x.specStack[:len(x.specStack)-1]
+		if success {
+			out.blocks = st.blocks
+			// an enclosing arm of the same frame has executed these blocks too
+			if n := len(x.specStack); n > 0 && x.specStack[n-1].fr == fr {
+				for b := range st.blocks {
+					x.specStack[n-1].blocks[b] = true
+				}
+			}
+		}
 		x.pc = x.pc[:savePC]
 		fr.env, fr.block, fr.prevBlock, fr.result, fr.cur = saveEnv, saveBlock, savePrev, saveResult, saveCur
 		fr.mergedPhis = saveMP
@@ -439,6 +451,7 @@ func (x *exec) runArm(fr *frame, from, start, join *ssa.BasicBlock, guard *smt.T
 			fr.mergedPhis = nil
 			break
 		}
+		st.blocks[fr.block] = true
 		nonPhis := executePhis(fr)
 		ret := false
 		for _, instr := range nonPhis {
@@ -501,6 +514,24 @@ func (x *exec) tryMerge(fr *frame, instr *ssa.If, c *smt.Term) (continuation, bo
 	join := info.ipdom[b]
 	env0 := fr.env
 	tb := x.tb
+	// everything the arms recorded (decisions, failed obligations, reach labels, witnesses,
+	// statistics) is dropped again when the join itself fails after both arms succeeded
+	saveDec, saveFail, saveReach, saveWit := len(x.decisions), len(x.failures), len(x.reached), len(x.wits)
+	saveStats := *x.stats
+	giveUp := func(why string) (continuation, bool) {
+		x.noMergeAt[instr] = true
+		if why != "" {
+			x.lastAbort = why
+		}
+		x.decisions = x.decisions[:saveDec]
+		x.failures = x.failures[:saveFail]
+		x.reached = x.reached[:saveReach]
+		x.wits = x.wits[:saveWit]
+		ar, ic := x.stats.AbandonReasons, x.stats.InconclusiveClauses
+		*x.stats = saveStats
+		x.stats.AbandonReasons, x.stats.InconclusiveClauses = ar, ic
+		return 0, false
+	}
 	a1, ok := x.runArm(fr, b, b.Succs[0], join, c, env0)
 	if !ok {
 		x.noMergeAt[instr] = true
@@ -508,13 +539,10 @@ func (x *exec) tryMerge(fr *frame, instr *ssa.If, c *smt.Term) (continuation, bo
 	}
 	a2, ok := x.runArm(fr, b, b.Succs[1], join, tb.Not(c), env0)
 	if !ok {
-		x.noMergeAt[instr] = true
-		return 0, false
+		return giveUp("")
 	}
 	if a1.returned != a2.returned {
-		x.noMergeAt[instr] = true
-		x.lastAbort = "one arm returns, the other reaches the join"
-		return 0, false
+		return giveUp("one arm returns, the other reaches the join")
 	}
 	// join the stores
 	type mw struct {
@@ -539,9 +567,7 @@ func (x *exec) tryMerge(fr *frame, instr *ssa.If, c *smt.Term) (continuation, bo
 			}
 			m, ok := x.mergeVal(c, v1, v2, 0)
 			if !ok {
-				x.noMergeAt[instr] = true
-				x.lastAbort = "stores that cannot be joined"
-				return 0, false
+				return giveUp("stores that cannot be joined")
 			}
 			merged = append(merged, mw{addr, m})
 		}
@@ -551,9 +577,7 @@ func (x *exec) tryMerge(fr *frame, instr *ssa.If, c *smt.Term) (continuation, bo
 	if a1.returned {
 		m, ok := x.mergeVal(c, a1.result, a2.result, 0)
 		if !ok {
-			x.noMergeAt[instr] = true
-			x.lastAbort = "results that cannot be joined"
-			return 0, false
+			return giveUp("results that cannot be joined")
 		}
 		retVal = m
 	} else {
@@ -568,8 +592,7 @@ func (x *exec) tryMerge(fr *frame, instr *ssa.If, c *smt.Term) (continuation, bo
 			}
 		}
 		if i1 < 0 || i2 < 0 {
-			x.noMergeAt[instr] = true
-			return 0, false
+			return giveUp("")
 		}
 		get := func(env map[ssa.Value]value, v ssa.Value) value {
 			saved := fr.env
@@ -595,14 +618,57 @@ func (x *exec) tryMerge(fr *frame, instr *ssa.If, c *smt.Term) (continuation, bo
 			}
 			m, ok := x.mergeVal(c, v1, v2, 0)
 			if !ok {
-				x.noMergeAt[instr] = true
-				x.lastAbort = "phi values that cannot be joined"
-				return 0, false
+				return giveUp("phi values that cannot be joined")
 			}
 			phiVals[phi] = m
 		}
 	}
+	// Registers that were already defined before the branch and were defined again inside an
+	// arm (the arm ran further iterations of an enclosing loop): their blocks may dominate the
+	// join, so code after the join can read them without a phi. They are joined like phis.
+	type rw struct {
+		v ssa.Value
+		m value
+	}
+	var redefs []rw
+	if !a1.returned {
+		seenB := map[*ssa.BasicBlock]bool{}
+		for _, arm := range []*armOut{&a1, &a2} {
+			for blk := range arm.blocks {
+				if seenB[blk] {
+					continue
+				}
+				seenB[blk] = true
+				for _, ins := range blk.Instrs {
+					v, isVal := ins.(ssa.Value)
+					if !isVal {
+						continue
+					}
+					old, had := env0[v]
+					if !had {
+						continue
+					}
+					v1, in1 := a1.env[v]
+					v2, in2 := a2.env[v]
+					if !in1 {
+						v1 = old
+					}
+					if !in2 {
+						v2 = old
+					}
+					m, ok := x.mergeVal(c, v1, v2, 0)
+					if !ok {
+						return giveUp("registers redefined in an arm that cannot be joined")
+					}
+					redefs = append(redefs, rw{v, m})
+				}
+			}
+		}
+	}
 	// commit
+	for _, r := range redefs {
+		fr.env[r.v] = r.m
+	}
 	for _, w := range merged {
 		if len(x.specStack) > 0 {
 			x.specStore(w.addr) // an enclosing speculation must see these stores
